@@ -8,6 +8,8 @@ LCQ == {<<"up", z, 2>> : z \in SizesQ} \cup {<<"down", z, 3, 10>> : z \in SizesQ
       \cup {<<"srv", k>> : k \in {"ok", "abort", "toggle", "cmd", "size"}} \cup {<<"tick">>}
 PC == << <<"state">>, <<"pool">>, <<"tick">>, <<"tick">>, <<"tick">>, <<"tick">>, <<"state">>, <<"pool">>, <<"ubuf">>,
          <<"up", 4, 5>>, <<"pool">>, <<"tick">>, <<"tick">>, <<"tick">>, <<"tick">>, <<"srv", "ok">>, <<"pool">>, <<"ubuf">>, <<"down", 5, 0, 40>>, <<"srv", "ok">>, <<"srv", "ok">>, <<"state">>, <<"pool">> >>
+LC20 == {<<"up", 4, 3>>, <<"up", 8, 2>>, <<"down", 8, 3, 10>>, <<"srv", "ok">>, <<"srv", "abort">>, <<"tick">>, <<"reset", 130>>, <<"reset", 129>>}
+PC20 == << <<"reset", 130>>, <<"state">>, <<"pool">>, <<"tick">>, <<"tick">>, <<"tick">>, <<"tick">>, <<"state">>, <<"up", 4, 5>>, <<"srv", "ok">>, <<"pool">>, <<"ubuf">> >>
 Big == {<<"up", z, 3>> : z \in {255, 256, 263, 264, 2000}} \cup {<<"down", z, 3, 7>> : z \in {255, 256, 263, 264, 2000}}
 ASSUME ScenOn => \A l \in Big : PrintT(<<"BEH", ToJson(Scenario(l))>>)
 ===============================================================================
